@@ -853,16 +853,28 @@ def run(ctx):
         #          accepted case of the grammar stream and of the token stream
         scases = [(ns, [tuple(x) for x in p_[2]], full[1]) for (ns, w, tr), p_, full in zip(asts, parsed, fulls)
                   if p_ is not None and full[1][0] == "ACC"]
+        n_grammar_ser = len(scases)      # ser_tokens (token level) is compared on grammar derivations only
         scases += [(ns, toks, r) for (ns, toks), r in zip(soup, res) if r[0] == "ACC"]
         sout = ctx.run_binary(binary, ["S|%s|%s" % (ns_wire(ns), ";".join("%s:%s" % (cps(a), cps(b)) for a, b in toks))
                                        for ns, toks, _ in scases], shards=PROCS)
         stats["serialisations_compared"] = len(scases)
-        for (ns, toks, r), o in zip(scases, sout):
+        for k_, ((ns, toks, r), o) in enumerate(zip(scases, sout)):
             n_eval += 1
-            mt = uncps(o[1:]) if o.startswith("=") else None
+            mt, mtoks_ = None, None
+            if o.startswith("="):
+                a_, _, b_ = o[1:].partition("|")
+                mt = uncps(a_)
+                mtoks_ = [[uncps(x.split(":")[0]), uncps(x.split(":")[1])] for x in b_.split(";") if x]
             if mt != r[3]:
                 mism.append(("serialise", [list(map(list, ns)), [list(x) for x in toks]],
                              "model %r, selectorText %r" % (mt, r[3])))
+            elif k_ < n_grammar_ser:
+                try:
+                    it_ = impl_tokens(r[3])
+                except Exception as e_:  # noqa
+                    it_ = ["EXC", type(e_).__name__]
+                if it_ != mtoks_:
+                    mism.append(("ser_tokens", r[3], "ser_tokens (model) %s, Tokenizer(selectorText) %s" % (mtoks_, it_)))
 
         # ---- (g) SelectorList: comma separated grammar selectors (oracle: every member its own triple) and comma soup
         gl = [(ns, text, tr, toks) for (ns, w, tr), (_, text), toks in zip(asts, texts, ast_tokens) if text]
